@@ -235,6 +235,102 @@ theorem mirrorType_typeOfM {s : Schema} {trank : String → Nat} (wf : WFT s tra
       subst this
       exact ⟨fun it h => (by cases h), fun ms h => (by cases h)⟩
 
+/-! ## the getters follow a rename chain of any length -/
+
+theorem typeOfM_name (mode : DescCreation) (s : Schema) (td : TypeDecl) : (typeOfM mode s td).name = td.name := by
+  unfold typeOfM
+  split <;> try rfl
+  split <;> rfl
+
+theorem find_map_typeOf (s : Schema) (l : List TypeDecl) (n : String) :
+    (l.map (typeOf s)).find? (fun t => t.name == n) = (l.find? (fun t => t.name == n)).map (typeOf s) := by
+  induction l with
+  | nil => rfl
+  | cons x xs ih =>
+    simp only [List.map_cons, List.find?_cons]
+    have : (typeOf s x).name = x.name := typeOfM_name _ s x
+    rw [this]
+    cases x.name == n <;> simp [ih]
+
+theorem viewOf_named (s : Schema) (n : String) (td : TypeDecl) (h : s.findT n = some td) :
+    viewOf (s.types.map (typeOf s)) (.named n) = some ((typeOf s td).ft, (typeOf s td).ref) := by
+  show Option.map (fun t => (t.ft, t.ref)) ((s.types.map (typeOf s)).find? (fun t => t.name == n)) = _
+  rw [find_map_typeOf]
+  unfold Schema.findT at h
+  rw [h]; rfl
+
+theorem baseFT_ne_ref (b : Base) : baseFT b ≠ FT.ref := by cases b <;> simp [baseFT]
+theorem aggFT_ne_ref (k : AggKind) : aggFT k ≠ FT.ref := by cases k <;> simp [aggFT]
+
+/-- a root declaration (body not `= <type name>`, and not the ill-formed `= <entity>`) stops the loop -/
+theorem nonRefTD_root (s : Schema) (f : Nat) (n : String) (td : TypeDecl) (h : s.findT n = some td)
+    (hroot : ∀ m, td.body ≠ .alias (.named m)) (hent : ∀ e, td.body ≠ .alias (.entity e)) :
+    nonRefTD (s.types.map (typeOf s)) (f + 1) (.named n) = .named n := by
+  have hv := viewOf_named s n td h
+  show (match viewOf (s.types.map (typeOf s)) (.named n) with
+    | none => DRef.named n
+    | some (ft, ref) => if ref == DRef.null then DRef.named n else if ft != FT.ref then DRef.named n
+        else nonRefTD (s.types.map (typeOf s)) f ref) = DRef.named n
+  rw [hv]
+  simp only
+  unfold typeOf typeOfM
+  cases hb : td.body with
+  | enum items => simp
+  | select ms => simp
+  | alias t =>
+    cases t with
+    | base b => simp [baseFT_ne_ref b]
+    | named m => exact absurd hb (hroot m)
+    | entity e => exact absurd hb (hent e)
+    | aggr k bn u o el => simp [aggFT_ne_ref k]
+
+/-- a rename step is followed -/
+theorem nonRefTD_step (s : Schema) (f : Nat) (n m : String) (td : TypeDecl) (h : s.findT n = some td)
+    (hb : td.body = .alias (.named m)) :
+    nonRefTD (s.types.map (typeOf s)) (f + 1) (.named n) = nonRefTD (s.types.map (typeOf s)) f (.named m) := by
+  have hv := viewOf_named s n td h
+  show (match viewOf (s.types.map (typeOf s)) (.named n) with
+    | none => DRef.named n
+    | some (ft, ref) => if ref == DRef.null then DRef.named n else if ft != FT.ref then DRef.named n
+        else nonRefTD (s.types.map (typeOf s)) f ref) = _
+  rw [hv]
+  have h1 : (typeOf s td).ft = .ref ∧ (typeOf s td).ref = .named m := by
+    unfold typeOf typeOfM
+    rw [hb]
+    simp only
+    split <;> exact ⟨rfl, rfl⟩
+  simp only [h1.1, h1.2]
+  simp
+
+theorem nonRefTD_chain {s : Schema} {trank : String → Nat} (wf : WFT s trank) {n : String} {r : TypeDecl}
+    (h : RootOf s n r) (hent : ∀ e, r.body ≠ .alias (.entity e)) :
+    ∀ f, trank n < f → nonRefTD (s.types.map (typeOf s)) f (.named n) = .named r.name := by
+  induction h with
+  | here n td hT hroot =>
+    intro f hf
+    cases f with
+    | zero => omega
+    | succ f =>
+      have hn : td.name = n := by
+        unfold Schema.findT at hT
+        have := List.find?_some hT
+        simpa using this
+      rw [nonRefTD_root s f n td hT hroot hent, hn]
+  | step n m td r hT hb _ ih =>
+    intro f hf
+    cases f with
+    | zero => omega
+    | succ f =>
+      have htm : td ∈ s.types := by unfold Schema.findT at hT; exact List.mem_of_find?_eq_some hT
+      have htn : td.name = n := by
+        unfold Schema.findT at hT
+        have := List.find?_some hT
+        simpa using this
+      have hlt := (wf.rename td htm m hb).2
+      rw [htn] at hlt
+      rw [nonRefTD_step s f n m td hT hb]
+      exact ih hent f (by omega)
+
 /-! ## the registry mutation sequence, entity by entity -/
 
 def blank (e : Entity) : DEntity := { name := e.name, abstract := e.abstract }
